@@ -134,6 +134,39 @@ theorem akeys_filterMap_sublist {β : Type} (m : List (κ × α)) (g : α → Op
     | none => exact List.Sublist.cons _ ih
     | some w => exact List.Sublist.cons₂ _ ih
 
+theorem adel_aset_self (m : List (κ × α)) (k : κ) (v : α) : adel (aset m k v) k = adel m k := by
+  induction m with
+  | nil => simp [aset, adel]
+  | cons e r ih =>
+    obtain ⟨k2, v2⟩ := e
+    simp only [aset]
+    split
+    · next h => subst h; simp [adel]
+    · next h =>
+      simp only [adel, List.filter_cons] at ih ⊢
+      simp only [h, decide_false, Bool.not_false, if_true]
+      rw [ih]
+
+theorem adel_aset_ne (m : List (κ × α)) (k k' : κ) (v : α) (h : k ≠ k') :
+    adel (aset m k v) k' = aset (adel m k') k v := by
+  induction m with
+  | nil => simp [aset, adel, h]
+  | cons e r ih =>
+    obtain ⟨k2, v2⟩ := e
+    simp only [aset]
+    split
+    · next hk =>
+      subst hk
+      simp only [adel, List.filter_cons, h, decide_false, Bool.not_false, if_true, aset]
+    · next hk =>
+      simp only [adel, List.filter_cons] at ih ⊢
+      by_cases h2 : k2 = k'
+      · subst h2
+        simp only [decide_true, Bool.not_true, Bool.false_eq_true, if_false]
+        exact ih
+      · simp only [h2, decide_false, Bool.not_false, if_true, aset, hk, if_false]
+        rw [ih]
+
 namespace Db
 
 /-! ### components untouched by other mutations -/
@@ -443,6 +476,494 @@ theorem keyed_remove_nodup (ms : List FMut) (f : File) : (akeys (remove (build m
 /-- sizes: both maps have duplicate-free keys, so equal lookups give equal entry counts -/
 theorem keyed_keys_nodup (ms : List FMut) : (akeys (build ms).keyed).Nodup :=
   keyed_applyAll_nodup ms Db.new (by simp [Db.new, akeys])
+
+/-! ### nested per-file maps (`index_reference`, `global_references`) -/
+
+theorem getOrCreateProp_nested (d : Db) (o : Owner) : (getOrCreateProp d o).1.nested = d.nested := by
+  unfold getOrCreateProp; split <;> rfl
+theorem dropOwner_nested (d : Db) (o : Owner) : (dropOwner d o).nested = d.nested := by
+  unfold dropOwner; split <;> rfl
+theorem fold_dropOwner_nested (owners : List Owner) (d : Db) :
+    (owners.foldl dropOwner d).nested = d.nested := by
+  induction owners generalizing d with
+  | nil => rfl
+  | cons o r ih => simp only [List.foldl_cons]; rw [ih, dropOwner_nested]
+theorem removeProps_nested (d : Db) (f : File) : (removeProps d f).nested = d.nested := by
+  unfold removeProps
+  split
+  · rfl
+  · rw [fold_dropOwner_nested]
+
+def nVal (m : FMut) (k : Nat × Nat) : Option (File × Nat) :=
+  match m.2 with
+  | .nested a b v => if (a, b) = k then some (m.1, v) else none
+  | _ => none
+
+/-- the (file, value) insertions under key `k`, in order -/
+def nVals (ms : List FMut) (k : Nat × Nat) : List (File × Nat) := ms.filterMap fun m => nVal m k
+
+/-- the inner per-file map after the insertions `xs` -/
+def insAll (inner : List (File × List Nat)) (xs : List (File × Nat)) : List (File × List Nat) :=
+  xs.foldl (fun acc x => nestedInsert acc x.1 x.2) inner
+
+theorem nVal_some {m : FMut} {k : Nat × Nat} {x : File × Nat} (h : nVal m k = some x) :
+    m.2 = .nested k.1 k.2 x.2 ∧ m.1 = x.1 := by
+  obtain ⟨f, mu⟩ := m
+  cases mu with
+  | nested a b w =>
+    simp only [nVal] at h
+    split at h
+    · next hk => cases h; subst hk; exact ⟨rfl, rfl⟩
+    · cases h
+  | perFile a w => cases h
+  | keyed a b w => cases h
+  | owned a b w => cases h
+  | prop o fld w => cases h
+
+theorem apply_nested_other (d : Db) (f : File) (m : Mut) (k : Nat × Nat) (h : nVal (f, m) k = none) :
+    aget (apply d f m).nested k = aget d.nested k := by
+  cases m with
+  | nested a b v =>
+    simp only [apply]
+    apply aget_aset_ne
+    intro e
+    simp [nVal, e] at h
+  | perFile a v => rfl
+  | keyed a b v => rfl
+  | owned a b v => rfl
+  | prop o fld v =>
+    simp only [apply]
+    rw [getOrCreateProp_nested]
+
+theorem apply_nested_self (d : Db) (m : FMut) (k : Nat × Nat) (x : File × Nat) (h : nVal m k = some x) :
+    aget (apply d m.1 m.2).nested k = some (nestedInsert (agetL d.nested k) x.1 x.2) := by
+  obtain ⟨h1, h2⟩ := nVal_some h
+  obtain ⟨f, mu⟩ := m
+  obtain ⟨a, b⟩ := k
+  obtain ⟨g, v⟩ := x
+  simp only at h1 h2
+  subst h1; subst h2
+  simp only [apply]
+  exact aget_aset_self _ _ _
+
+theorem apply_nested_nodup (d : Db) (f : File) (m : Mut) (h : (akeys d.nested).Nodup) :
+    (akeys (apply d f m).nested).Nodup := by
+  cases m with
+  | nested a b v => simp only [apply]; exact nodup_akeys_aset _ _ _ h
+  | perFile a v => exact h
+  | keyed a b v => exact h
+  | owned a b v => exact h
+  | prop o fld v => simp only [apply]; rw [getOrCreateProp_nested]; exact h
+
+theorem nested_applyAll_nodup (ms : List FMut) (d : Db) (h : (akeys d.nested).Nodup) :
+    (akeys (applyAll d ms).nested).Nodup := by
+  induction ms generalizing d with
+  | nil => exact h
+  | cons m r ih => exact ih _ (apply_nested_nodup d m.1 m.2 h)
+
+theorem nested_applyAll (ms : List FMut) (d : Db) (k : Nat × Nat) :
+    aget (applyAll d ms).nested k =
+      if nVals ms k = [] then aget d.nested k else some (insAll (agetL d.nested k) (nVals ms k)) := by
+  induction ms generalizing d with
+  | nil => simp [applyAll, nVals]
+  | cons m r ih =>
+    have hstep : applyAll d (m :: r) = applyAll (apply d m.1 m.2) r := rfl
+    rw [hstep, ih]
+    cases hv : nVal m k with
+    | some x =>
+      have hvs : nVals (m :: r) k = x :: nVals r k := by simp [nVals, hv]
+      have hget := apply_nested_self d m k x hv
+      rw [hvs]
+      simp only [List.cons_ne_nil, if_false, insAll, List.foldl_cons]
+      split
+      · next h => rw [h]; exact hget
+      · simp only [agetL, hget, Option.getD_some]
+    | none =>
+      have hvs : nVals (m :: r) k = nVals r k := by simp [nVals, hv]
+      have hget := apply_nested_other d m.1 m.2 k hv
+      rw [hvs, hget]
+      simp only [agetL, hget]
+
+theorem nVals_filter (ms : List FMut) (f : File) (k : Nat × Nat) :
+    nVals (ms.filter fun m => m.1 ≠ f) k = (nVals ms k).filter fun x => x.1 ≠ f := by
+  induction ms with
+  | nil => rfl
+  | cons m r ih =>
+    rw [List.filter_cons]
+    by_cases hg : m.1 = f
+    · rw [if_neg (by simpa using hg), ih]
+      cases hv : nVal m k with
+      | none => simp [nVals, hv]
+      | some x =>
+        have hx : x.1 = f := (nVal_some hv).2.symm.trans hg
+        have e1 : nVals (m :: r) k = x :: nVals r k := by simp [nVals, hv]
+        rw [e1, List.filter_cons, if_neg (by simpa using hx)]
+    · rw [if_pos (by simpa using hg)]
+      cases hv : nVal m k with
+      | none =>
+        have e1 : ∀ l, nVals (m :: l) k = nVals l k := fun l => by simp [nVals, hv]
+        rw [e1, e1, ih]
+      | some x =>
+        have hx : ¬ x.1 = f := fun e => hg ((nVal_some hv).2.trans e)
+        have e1 : ∀ l, nVals (m :: l) k = x :: nVals l k := fun l => by simp [nVals, hv]
+        rw [e1, e1, ih, List.filter_cons, if_pos (by simpa using hx)]
+
+/-- deleting `f`'s inner entry commutes with the insertions of the other files -/
+theorem adel_insAll (inner : List (File × List Nat)) (xs : List (File × Nat)) (f : File) :
+    adel (insAll inner xs) f = insAll (adel inner f) (xs.filter fun x => x.1 ≠ f) := by
+  induction xs generalizing inner with
+  | nil => rfl
+  | cons x r ih =>
+    simp only [insAll, List.foldl_cons] at ih ⊢
+    rw [ih]
+    rw [List.filter_cons]
+    by_cases hx : x.1 = f
+    · rw [if_neg (by simpa using hx)]
+      simp only [nestedInsert]
+      rw [← hx, adel_aset_self]
+    · rw [if_pos (by simpa using hx)]
+      simp only [List.foldl_cons, nestedInsert]
+      rw [adel_aset_ne _ _ _ _ hx]
+      have : agetL (adel inner f) x.1 = agetL inner x.1 := by
+        unfold agetL; rw [aget_adel]; simp [hx]
+      rw [this]
+
+def dropFile (f : File) (v : List (File × List Nat)) : Option (List (File × List Nat)) :=
+  if (adel v f).isEmpty then none else some (adel v f)
+
+theorem retainNested_eq (m : List ((Nat × Nat) × List (File × List Nat))) (f : File) :
+    retainNested m f = m.filterMap fun e => (dropFile f e.2).map fun v => (e.1, v) := by
+  unfold retainNested dropFile
+  congr 1
+  funext e
+  simp only
+  split <;> simp_all
+
+theorem insAll_nil_iff (xs : List (File × Nat)) : insAll [] xs = [] ↔ xs = [] := by
+  constructor
+  · intro h
+    cases xs with
+    | nil => rfl
+    | cons x r =>
+      exfalso
+      have hmem : ∀ (ys : List (File × Nat)) (acc : List (File × List Nat)), acc ≠ [] → insAll acc ys ≠ [] := by
+        intro ys
+        induction ys with
+        | nil => intro acc h; exact h
+        | cons y t ih =>
+          intro acc _
+          simp only [insAll, List.foldl_cons]
+          apply ih
+          simp only [nestedInsert]
+          intro e
+          have := aget_aset_self acc y.1 (insertSet (agetL acc y.1) y.2)
+          rw [e] at this
+          cases this
+      simp only [insAll, List.foldl_cons] at h
+      refine hmem r _ ?_ h
+      simp [nestedInsert, aset]
+  · intro h; subst h; rfl
+
+/-- **nested per-file maps.** After `remove f` every `index_reference`-shaped map is exactly what the other
+files' mutations build: no inner entry of `f`, no emptied key left behind. -/
+theorem nested_remove_exact (ms : List FMut) (f : File) (k : Nat × Nat) :
+    aget (remove (build ms) f).nested k = aget (build (ms.filter fun m => m.1 ≠ f)).nested k := by
+  have h1 : (remove (build ms) f).nested = retainNested (build ms).nested f := by
+    simp only [remove, removeProps_nested]
+  have e : ∀ l : List FMut, build l = applyAll Db.new l := fun _ => rfl
+  have hnd : (akeys (build ms).nested).Nodup := by
+    rw [e]; exact nested_applyAll_nodup ms Db.new (by simp [Db.new, akeys])
+  rw [h1, retainNested_eq, aget_filterMap_val (build ms).nested (dropFile f) k hnd,
+    e, e, nested_applyAll, nested_applyAll, nVals_filter]
+  have hn : aget Db.new.nested k = none := rfl
+  have hl : agetL Db.new.nested k = [] := rfl
+  rw [hn, hl]
+  by_cases h0 : nVals ms k = []
+  · simp [h0]
+  · simp only [h0, if_false, Option.bind_some, dropFile]
+    rw [adel_insAll]
+    have : adel ([] : List (File × List Nat)) f = [] := rfl
+    rw [this]
+    by_cases h2 : ((nVals ms k).filter fun x => x.1 ≠ f) = []
+    · rw [h2]; simp [insAll]
+    · have h3 : insAll [] ((nVals ms k).filter fun x => x.1 ≠ f) ≠ [] := fun e => h2 ((insAll_nil_iff _).mp e)
+      simp only [h2, if_false]
+      rw [if_neg (by simpa using h3)]
+
+/-! ### id-owned maps with a per-file id list (`signatures` / `in_file_signatures`) -/
+
+theorem getOrCreateProp_owned (d : Db) (o : Owner) : (getOrCreateProp d o).1.owned = d.owned := by
+  unfold getOrCreateProp; split <;> rfl
+theorem getOrCreateProp_inFile (d : Db) (o : Owner) : (getOrCreateProp d o).1.inFile = d.inFile := by
+  unfold getOrCreateProp; split <;> rfl
+theorem dropOwner_owned (d : Db) (o : Owner) : (dropOwner d o).owned = d.owned := by
+  unfold dropOwner; split <;> rfl
+theorem dropOwner_inFile (d : Db) (o : Owner) : (dropOwner d o).inFile = d.inFile := by
+  unfold dropOwner; split <;> rfl
+theorem fold_dropOwner_owned (owners : List Owner) (d : Db) :
+    (owners.foldl dropOwner d).owned = d.owned := by
+  induction owners generalizing d with
+  | nil => rfl
+  | cons o r ih => simp only [List.foldl_cons]; rw [ih, dropOwner_owned]
+theorem fold_dropOwner_inFile (owners : List Owner) (d : Db) :
+    (owners.foldl dropOwner d).inFile = d.inFile := by
+  induction owners generalizing d with
+  | nil => rfl
+  | cons o r ih => simp only [List.foldl_cons]; rw [ih, dropOwner_inFile]
+theorem removeProps_owned (d : Db) (f : File) : (removeProps d f).owned = d.owned := by
+  unfold removeProps
+  split
+  · rfl
+  · rw [fold_dropOwner_owned]
+theorem removeProps_inFile (d : Db) (f : File) : (removeProps d f).inFile = d.inFile := by
+  unfold removeProps
+  split
+  · rfl
+  · rw [fold_dropOwner_inFile]
+
+/-- the last value written under id `k = (map, file, id)`, if any -/
+def oVal (m : FMut) (k : Nat × File × Nat) : Option Nat :=
+  match m.2 with
+  | .owned a i v => if (a, m.1, i) = k then some v else none
+  | _ => none
+
+def oLast (ms : List FMut) (k : Nat × File × Nat) : Option Nat :=
+  ms.foldl (fun acc m => (oVal m k).or acc) none
+
+theorem oVal_file {m : FMut} {k : Nat × File × Nat} {v : Nat} (h : oVal m k = some v) : m.1 = k.2.1 := by
+  obtain ⟨f, mu⟩ := m
+  cases mu with
+  | owned a i w =>
+    simp only [oVal] at h
+    split at h
+    · next hk => subst hk; rfl
+    · cases h
+  | perFile a w => cases h
+  | keyed a b w => cases h
+  | nested a b w => cases h
+  | prop o fld w => cases h
+
+theorem apply_owned (d : Db) (m : FMut) (k : Nat × File × Nat) :
+    aget (apply d m.1 m.2).owned k = (oVal m k).or (aget d.owned k) := by
+  obtain ⟨f, mu⟩ := m
+  cases mu with
+  | owned a i v =>
+    simp only [apply, oVal]
+    rw [aget_aset]
+    by_cases hk : k = (a, f, i)
+    · subst hk; simp
+    · have : ¬ (a, f, i) = k := fun e => hk e.symm
+      simp [hk, this]
+  | perFile a v => simp [apply, oVal]
+  | keyed a b v => simp [apply, oVal]
+  | nested a b v => simp [apply, oVal]
+  | prop o fld v => simp only [apply, oVal]; rw [getOrCreateProp_owned]; simp
+
+theorem owned_applyAll (ms : List FMut) (d : Db) (k : Nat × File × Nat) :
+    aget (applyAll d ms).owned k = (ms.foldl (fun acc m => (oVal m k).or acc) (aget d.owned k)) := by
+  induction ms generalizing d with
+  | nil => rfl
+  | cons m r ih =>
+    have hstep : applyAll d (m :: r) = applyAll (apply d m.1 m.2) r := rfl
+    rw [hstep, ih, apply_owned]
+    rfl
+
+/-- every id stored for a file is listed in that file's id list -/
+def OwnedListed (d : Db) : Prop :=
+  ∀ k : Nat × File × Nat, (aget d.owned k).isSome = true → k.2.2 ∈ agetL d.inFile (k.1, k.2.1)
+
+theorem mem_insertSet (xs : List Nat) (x y : Nat) : y ∈ insertSet xs x ↔ y = x ∨ y ∈ xs := by
+  unfold insertSet
+  split
+  · next h =>
+    constructor
+    · exact Or.inr
+    · rintro (h1 | h1)
+      · subst h1; exact h
+      · exact h1
+  · simp [or_comm]
+
+theorem apply_ownedListed (d : Db) (f : File) (m : Mut) (h : OwnedListed d) : OwnedListed (apply d f m) := by
+  cases m with
+  | owned a i v =>
+    intro k hk
+    simp only [apply] at hk ⊢
+    rw [aget_aset] at hk
+    rw [agetL_aset]
+    by_cases hk2 : k = (a, f, i)
+    · subst hk2
+      simp only [if_true]
+      exact (mem_insertSet _ _ _).mpr (Or.inl rfl)
+    · simp only [hk2, if_false] at hk
+      have := h k hk
+      by_cases hk3 : (k.1, k.2.1) = (a, f)
+      · rw [if_pos hk3]
+        rw [hk3] at this
+        exact (mem_insertSet _ _ _).mpr (Or.inr this)
+      · rw [if_neg hk3]; exact this
+  | perFile a v => exact h
+  | keyed a b v => exact h
+  | nested a b v => exact h
+  | prop o fld v =>
+    intro k hk
+    simp only [apply] at hk ⊢
+    rw [getOrCreateProp_owned] at hk
+    rw [getOrCreateProp_inFile]
+    exact h k hk
+
+theorem applyAll_ownedListed (ms : List FMut) (d : Db) (h : OwnedListed d) : OwnedListed (applyAll d ms) := by
+  induction ms generalizing d with
+  | nil => exact h
+  | cons m r ih => exact ih _ (apply_ownedListed d m.1 m.2 h)
+
+theorem aget_fold_adel (ids : List Nat) (o : List ((Nat × File × Nat) × Nat)) (a : Nat) (f : File)
+    (k : Nat × File × Nat) :
+    aget (ids.foldl (fun o id => adel o (a, f, id)) o) k =
+      if k.1 = a ∧ k.2.1 = f ∧ k.2.2 ∈ ids then none else aget o k := by
+  induction ids generalizing o with
+  | nil => simp
+  | cons i r ih =>
+    simp only [List.foldl_cons]
+    rw [ih, aget_adel]
+    by_cases h1 : k.1 = a ∧ k.2.1 = f ∧ k.2.2 ∈ r
+    · have : k.1 = a ∧ k.2.1 = f ∧ k.2.2 ∈ i :: r := ⟨h1.1, h1.2.1, List.mem_cons_of_mem _ h1.2.2⟩
+      simp [h1, this]
+    · simp only [h1, if_false]
+      by_cases h2 : k = (a, f, i)
+      · subst h2; simp
+      · simp only [h2, if_false]
+        have : ¬ (k.1 = a ∧ k.2.1 = f ∧ k.2.2 ∈ i :: r) := by
+          rintro ⟨e1, e2, e3⟩
+          rcases List.mem_cons.mp e3 with e4 | e4
+          · exact h2 (by obtain ⟨x, y, z⟩ := k; simp only at e1 e2 e4; subst e1; subst e2; subst e4; rfl)
+          · exact h1 ⟨e1, e2, e4⟩
+        rw [if_neg this]
+
+theorem aget_removeOwned (owned : List ((Nat × File × Nat) × Nat)) (inFile : List ((Nat × File) × List Nat))
+    (f : File) (k : Nat × File × Nat) :
+    aget (removeOwned owned inFile f) k =
+      if k.2.1 = f ∧ ∃ e ∈ inFile, e.1 = (k.1, f) ∧ k.2.2 ∈ e.2 then none else aget owned k := by
+  unfold removeOwned
+  induction inFile generalizing owned with
+  | nil => simp
+  | cons e r ih =>
+    rw [List.filter_cons]
+    by_cases he : e.1.2 = f
+    · rw [if_pos (by simpa using he)]
+      simp only [List.foldl_cons]
+      rw [ih, aget_fold_adel]
+      by_cases h1 : k.2.1 = f ∧ ∃ e' ∈ r, e'.1 = (k.1, f) ∧ k.2.2 ∈ e'.2
+      · have : k.2.1 = f ∧ ∃ e' ∈ e :: r, e'.1 = (k.1, f) ∧ k.2.2 ∈ e'.2 := by
+          obtain ⟨a, e', b, c⟩ := h1
+          exact ⟨a, e', List.mem_cons_of_mem _ b, c⟩
+        simp [h1, this]
+      · simp only [h1, if_false]
+        by_cases h2 : k.1 = e.1.1 ∧ k.2.1 = f ∧ k.2.2 ∈ e.2
+        · have : k.2.1 = f ∧ ∃ e' ∈ e :: r, e'.1 = (k.1, f) ∧ k.2.2 ∈ e'.2 := by
+            refine ⟨h2.2.1, e, List.mem_cons_self, ?_, h2.2.2⟩
+            obtain ⟨⟨x, y⟩, z⟩ := e
+            simp only at he h2 ⊢
+            rw [h2.1, he]
+          rw [if_pos h2, if_pos this]
+        · rw [if_neg h2]
+          have : ¬ (k.2.1 = f ∧ ∃ e' ∈ e :: r, e'.1 = (k.1, f) ∧ k.2.2 ∈ e'.2) := by
+            rintro ⟨a, e', b, c, d⟩
+            rcases List.mem_cons.mp b with b1 | b1
+            · subst b1
+              apply h2
+              refine ⟨?_, a, d⟩
+              rw [c]
+            · exact h1 ⟨a, e', b1, c, d⟩
+          rw [if_neg this]
+    · rw [if_neg (by simpa using he)]
+      rw [ih]
+      have : (∃ e' ∈ e :: r, e'.1 = (k.1, f) ∧ k.2.2 ∈ e'.2) ↔ ∃ e' ∈ r, e'.1 = (k.1, f) ∧ k.2.2 ∈ e'.2 := by
+        constructor
+        · rintro ⟨e', b, c, d⟩
+          rcases List.mem_cons.mp b with b1 | b1
+          · subst b1; rw [c] at he; exact absurd rfl he
+          · exact ⟨e', b1, c, d⟩
+        · rintro ⟨e', b, c, d⟩; exact ⟨e', List.mem_cons_of_mem _ b, c, d⟩
+      simp only [this]
+
+theorem mem_of_agetL {β : Type} (m : List (κ × List β)) (k : κ) (x : β) (h : x ∈ agetL m k) :
+    ∃ e ∈ m, e.1 = k ∧ x ∈ e.2 := by
+  induction m with
+  | nil => simp [agetL, aget] at h
+  | cons e r ih =>
+    obtain ⟨k2, v2⟩ := e
+    by_cases hk : k2 = k
+    · subst hk
+      simp only [agetL, aget, if_true, Option.getD_some] at h
+      exact ⟨(k2, v2), List.mem_cons_self, rfl, h⟩
+    · simp only [agetL, aget, hk, if_false] at h
+      obtain ⟨e', h1, h2, h3⟩ := ih h
+      exact ⟨e', List.mem_cons_of_mem _ h1, h2, h3⟩
+
+theorem oLast_filter (ms : List FMut) (f : File) (k : Nat × File × Nat) (init : Option Nat) :
+    (ms.filter fun m => m.1 ≠ f).foldl (fun acc m => (oVal m k).or acc) init =
+      if k.2.1 = f then init else ms.foldl (fun acc m => (oVal m k).or acc) init := by
+  induction ms generalizing init with
+  | nil => simp
+  | cons m r ih =>
+    rw [List.filter_cons]
+    by_cases hg : m.1 = f
+    · rw [if_neg (by simpa using hg), ih]
+      split
+      · rfl
+      · next hk =>
+        simp only [List.foldl_cons]
+        cases hv : oVal m k with
+        | none => rfl
+        | some v => exact absurd ((oVal_file hv).symm.trans hg) hk
+    · rw [if_pos (by simpa using hg)]
+      simp only [List.foldl_cons]
+      rw [ih]
+      split
+      · next hk =>
+        cases hv : oVal m k with
+        | none => rfl
+        | some v => exact absurd ((oVal_file hv).trans hk) hg
+      · rfl
+
+theorem fold_or_none_of_file (ms : List FMut) (k : Nat × File × Nat) (init : Option Nat)
+    (h : (ms.foldl (fun acc m => (oVal m k).or acc) init).isSome = false) : init.isSome = false := by
+  induction ms generalizing init with
+  | nil => exact h
+  | cons m r ih =>
+    simp only [List.foldl_cons] at h
+    have := ih _ h
+    cases hv : oVal m k <;> simp_all
+
+/-- **id-owned maps.** After `remove f` every `signatures`-shaped map is exactly what the other files'
+mutations build (ids of `f` are found through `f`'s id list and deleted; nothing else changes). -/
+theorem owned_remove_exact (ms : List FMut) (f : File) (k : Nat × File × Nat) :
+    aget (remove (build ms) f).owned k = aget (build (ms.filter fun m => m.1 ≠ f)).owned k := by
+  have h1 : (remove (build ms) f).owned = removeOwned (build ms).owned (build ms).inFile f := by
+    simp only [remove, removeProps_owned, removeProps_inFile]
+  have e : ∀ l : List FMut, build l = applyAll Db.new l := fun _ => rfl
+  have hl : OwnedListed (build ms) := by
+    rw [e]; exact applyAll_ownedListed ms Db.new (by intro k hk; simp [Db.new, aget] at hk)
+  rw [h1, aget_removeOwned, e (ms.filter _), owned_applyAll, oLast_filter]
+  have hn : aget Db.new.owned k = none := rfl
+  rw [hn]
+  by_cases hk : k.2.1 = f
+  · simp only [hk, true_and, if_true]
+    split
+    · rfl
+    · next hne =>
+      -- not listed ⇒ not stored
+      cases hs : aget (build ms).owned k with
+      | none => rfl
+      | some v =>
+        exfalso
+        apply hne
+        have := hl k (by rw [hs]; rfl)
+        rw [hk] at this
+        obtain ⟨e', h2, h3, h4⟩ := mem_of_agetL _ _ _ this
+        exact ⟨e', h2, h3, h4⟩
+  · simp only [hk, false_and, if_false]
+    rw [e, owned_applyAll, hn]
 
 end Db
 end Index
